@@ -533,24 +533,21 @@ Qed.
 
 Section NormalBand.
 Variable Phi : Q -> Q.                                   (* norm.CDF *)
-Hypothesis Hmon : forall a b, a <= b -> Phi a <= Phi b.
 Definition band (l r : Z) : Q := Phi (inject_Z r - (1 # 2)) - Phi (inject_Z l - (1 # 2)).
 
 Variable n : Z.
 Variables c l1 r1 : Q.
-Let l := (Qfloor (l1 - (1 # 2)) + 1)%Z.
+Let l0 := (Qfloor (l1 - (1 # 2)) + 1)%Z.
 Let r := (Qceiling (r1 - (1 # 2)) + 1)%Z.
-Let biased : bool := Qle_bool c (band l (r - 1)) && Qltb (band l (r - 1)) (band l r).
-Let r' := if biased then (r - 1)%Z else r.
-Let full : bool := (l <=? 0)%Z && (n + 1 <=? r')%Z.
+Let l := if (r <=? l0)%Z then (r - 1)%Z else l0.
 
-(* outward rounding to half-integers: l - 1/2 is the greatest half-integer <= l1 and
+(* outward rounding to half-integers: l0 - 1/2 is the greatest half-integer <= l1 and
    r - 1/2 the least half-integer >= r1 *)
 Lemma band_rounding :
-  inject_Z l - (1 # 2) <= l1 /\ l1 < inject_Z l + (1 # 2) /\
+  inject_Z l0 - (1 # 2) <= l1 /\ l1 < inject_Z l0 + (1 # 2) /\
   r1 <= inject_Z r - (1 # 2) /\ inject_Z r - (3 # 2) < r1.
 Proof.
-  unfold l, r. rewrite !inject_Z_plus. change (inject_Z 1) with 1.
+  unfold l0, r. rewrite !inject_Z_plus. change (inject_Z 1) with 1.
   pose proof (Qfloor_le (l1 - (1 # 2))) as F1. pose proof (Qlt_floor (l1 - (1 # 2))) as F2.
   pose proof (Qle_ceiling (r1 - (1 # 2))) as C1. pose proof (Qceiling_lt (r1 - (1 # 2))) as C2.
   rewrite inject_Z_plus in F2. change (inject_Z 1) with 1 in F2.
@@ -558,16 +555,36 @@ Proof.
   repeat split; lra.
 Qed.
 
+(* the left end actually used: l0, except that an empty rounded band (r <= l0: the interval
+   [l1, r1] is a single point on a half-integer, or reversed) keeps the bucket below r.  The band is
+   never empty, never starts right of l0, and is the outward rounding whenever l1 < r1. *)
+Lemma band_left : (l <= l0)%Z /\ (l < r)%Z /\ (l1 < r1 -> l = l0) /\ (l1 <= r1 -> (l0 <= r)%Z).
+Proof.
+  destruct band_rounding as (R1 & R2 & R3 & R4).
+  assert (Hle : l1 <= r1 -> (l0 <= r)%Z).
+  { intros H. apply Zle_from_Qlt. lra. }
+  assert (Hlt : l1 < r1 -> (l0 < r)%Z).
+  { intros H. assert (l0 <= r - 1)%Z; [|lia]. apply Zle_from_Qlt. unfold Z.sub.
+    rewrite inject_Z_plus, inject_Z_opp. change (inject_Z 1) with 1. lra. }
+  unfold l. destruct (Z.leb_spec r l0) as [L|L].
+  - split; [lia|]. split; [lia|]. split; [|exact Hle]. intros H. specialize (Hlt H). lia.
+  - split; [lia|]. split; [lia|]. split; [reflexivity | exact Hle].
+Qed.
+
+Let biased : bool := (l <? r - 1)%Z && Qle_bool c (band l (r - 1)) && Qltb (band l (r - 1)) (band l r).
+Let r' := if biased then (r - 1)%Z else r.
+Let full : bool := (l <=? 0)%Z && (n + 1 <=? r')%Z.
+
 (* the result: the rounded band, one bucket shorter on the right with Ambiguous set exactly when
-   that still has mass >= c and strictly less than the symmetric band; Confidence is the Phi-mass
-   of the (unclamped) band, 1 when the band covers [0, n+1]; orders clamped to [0, n+1] *)
+   that is not empty, still has mass >= c and strictly less than the symmetric band; Confidence is
+   the Phi-mass of the (unclamped) band, 1 when the band covers [0, n+1]; orders clamped to [0, n+1] *)
 Theorem qci_normal_band :
   let res := qci_normal band n c l1 r1 in
   r_lo res = Z.max l 0 /\ r_hi res = Z.min r' (n + 1) /\
   r_amb res = (biased && negb full) /\
   r_conf res = (if full then 1 else band l r').
 Proof.
-  unfold qci_normal. fold l r. fold biased.
+  unfold qci_normal. fold l0 r. fold l. fold biased.
   unfold r', full, r'. destruct biased; cbv zeta;
   match goal with |- context [if ?b then (1, false) else _] => destruct b eqn:F end;
   unfold clampR; simpl;
@@ -575,55 +592,60 @@ Proof.
   repeat split; try reflexivity; try lia.
 Qed.
 
-(* never below c, provided l1 and r1 bracket the central mass c *)
+(* 0 <= LoOrder < HiOrder <= n+1 for EVERY c, for a central interval [l1, r1] (l1 <= r1) about a
+   mean inside [0, n]; no assumption on Phi *)
+Theorem qci_normal_orders : forall mu, l1 <= r1 -> l1 + r1 == 2 * mu ->
+  0 <= mu <= inject_Z n -> (0 <= n)%Z ->
+  let res := qci_normal band n c l1 r1 in
+  (0 <= r_lo res)%Z /\ (r_lo res < r_hi res)%Z /\ (r_hi res <= n + 1)%Z.
+Proof.
+  intros mu Hlr Hsum Hmu Hn res. unfold res.
+  destruct qci_normal_band as (E1 & E2 & _ & _). rewrite E1, E2.
+  destruct band_rounding as (R1 & R2 & R3 & R4).
+  destruct band_left as (L1 & L2 & _ & _).
+  assert (Ll : (l0 <= n)%Z) by (apply Zle_from_Qlt; lra).
+  assert (Lr : (1 <= r)%Z).
+  { assert (0 <= r - 1)%Z; [|lia]. apply Zle_from_Qlt. unfold Z.sub. rewrite inject_Z_plus, inject_Z_opp.
+    change (inject_Z 1) with 1. change (inject_Z 0) with 0. lra. }
+  unfold r'. destruct biased eqn:Bi; [|lia].
+  unfold biased in Bi. apply andb_prop in Bi as [Bi _]. apply andb_prop in Bi as [B0 _].
+  apply Z.ltb_lt in B0.
+  assert (Lr' : (1 <= r - 1)%Z).
+  { destruct (Z_lt_ge_dec (r - 1) 1) as [L|]; [|lia]. exfalso.
+    assert (Er : r = 1%Z) by lia.
+    (* then r1 <= 1/2 and l < 0, so l = l0 <= -1 and l1 < -1/2: r1 = 2 mu - l1 > 1/2 *)
+    assert (Hr1 : r1 <= 1 # 2). { rewrite Er in R3. change (inject_Z 1) with 1 in R3. lra. }
+    assert (El : l = l0).
+    { unfold l in *. destruct (Z.leb_spec r l0); [lia | reflexivity]. }
+    assert (Hl0 : (l0 <= -1)%Z) by lia.
+    assert (inject_Z l0 <= -(1)) by (change (-(1)) with (inject_Z (-1)); rewrite <- Zle_Qle; exact Hl0).
+    lra. }
+  lia.
+Qed.
+
+Hypothesis Hmon : forall a b, a <= b -> Phi a <= Phi b.
+
+(* never below c, provided l1 and r1 bracket the central mass 1 - 2 alpha, alpha = qci_alpha c *)
+Lemma qci_alpha_spec : c <= 1 - 2 * qci_alpha c /\ qci_alpha c <= 1 # 2.
+Proof.
+  unfold qci_alpha. cbv zeta. destruct (Qltb (1 # 2) ((1 - c) / 2)) eqn:E.
+  - apply Qltb_true in E. assert (EA : (1 - c) / 2 == (1 # 2) - c * (1 # 2)) by field. rewrite EA in E. lra.
+  - apply Qltb_false in E. assert (EA : (1 - c) / 2 == (1 # 2) - c * (1 # 2)) by field. rewrite EA in *. lra.
+Qed.
+
 Theorem qci_normal_conf_ge_c : c <= 1 ->
-  Phi l1 <= (1 - c) / 2 -> 1 - (1 - c) / 2 <= Phi r1 ->
+  Phi l1 <= qci_alpha c -> 1 - qci_alpha c <= Phi r1 ->
   c <= r_conf (qci_normal band n c l1 r1).
 Proof.
   intros Hc H1 H2. destruct qci_normal_band as (_ & _ & _ & E). rewrite E.
   destruct full; [exact Hc|].
   unfold r'. destruct biased eqn:Bi.
-  - unfold biased in Bi. apply andb_prop in Bi as [B1 _]. apply Qle_bool_iff in B1. exact B1.
-  - destruct band_rounding as (R1 & _ & R3 & _).
-    unfold band. pose proof (Hmon _ _ R1). pose proof (Hmon _ _ R3).
-    assert (EA : (1 - c) / 2 == (1 # 2) - c * (1 # 2)) by field. rewrite EA in H1, H2. lra.
-Qed.
-
-(* 0 <= LoOrder < HiOrder <= n+1 for a band centred inside [0, n] and 0 < c *)
-Theorem qci_normal_orders : forall mu, 0 < c -> l1 < r1 -> l1 + r1 == 2 * mu ->
-  0 <= mu <= inject_Z n -> (0 <= n)%Z ->
-  let res := qci_normal band n c l1 r1 in
-  (0 <= r_lo res)%Z /\ (r_lo res < r_hi res)%Z /\ (r_hi res <= n + 1)%Z.
-Proof.
-  intros mu Hc Hlr Hsum Hmu Hn res. unfold res.
-  destruct qci_normal_band as (E1 & E2 & _ & _). rewrite E1, E2.
-  destruct band_rounding as (R1 & R2 & R3 & R4).
-  assert (Ll : (l <= n)%Z) by (apply Zle_from_Qlt; lra).
-  assert (Lr : (1 <= r)%Z).
-  { assert (0 <= r - 1)%Z; [|lia]. apply Zle_from_Qlt. unfold Z.sub. rewrite inject_Z_plus, inject_Z_opp.
-    change (inject_Z 1) with 1. change (inject_Z 0) with 0. lra. }
-  assert (Llr : (l < r)%Z).
-  { assert (l <= r - 1)%Z; [|lia]. apply Zle_from_Qlt. unfold Z.sub. rewrite inject_Z_plus, inject_Z_opp.
-    change (inject_Z 1) with 1. lra. }
-  unfold r'. destruct biased eqn:Bi; [|lia].
-  unfold biased in Bi. apply andb_prop in Bi as [B1 _]. apply Qle_bool_iff in B1.
-  (* the shorter band has positive mass, so it is not empty *)
-  assert (Llr' : (l < r - 1)%Z).
-  { destruct (Z_lt_ge_dec l (r - 1)) as [|G]; [assumption|]. exfalso.
-    assert (inject_Z (r - 1) - (1 # 2) <= inject_Z l - (1 # 2)).
-    { assert (inject_Z (r - 1) <= inject_Z l) by (rewrite <- Zle_Qle; lia). lra. }
-    pose proof (Hmon _ _ H). unfold band in B1. lra. }
-  assert (Lr' : (1 <= r - 1)%Z).
-  { destruct (Z_lt_ge_dec (r - 1) 1) as [L|]; [|lia]. exfalso.
-    assert (r = 1%Z) by lia.
-    (* then r1 <= 1/2, l1 >= -1/2, so l >= 0 = r - 1 *)
-    assert (Hr1 : r1 <= 1 # 2). { rewrite H in R3. change (inject_Z 1) with 1 in R3. lra. }
-    assert (Hl1 : - (1 # 2) <= l1) by lra.
-    assert (0 <= l)%Z; [|lia].
-    unfold l. pose proof (Qlt_floor (l1 - (1 # 2))) as F2.
-    assert (-1 <= Qfloor (l1 - (1 # 2)))%Z; [|lia].
-    apply Zle_from_Qlt. rewrite inject_Z_plus in F2. change (inject_Z 1) with 1 in F2.
-    change (inject_Z (-1)) with (-(1)). lra. }
-  lia.
+  - unfold biased in Bi. apply andb_prop in Bi as [Bi _]. apply andb_prop in Bi as [_ B1].
+    apply Qle_bool_iff in B1. exact B1.
+  - destruct band_rounding as (R1 & _ & R3 & _). destruct band_left as (L1 & _ & _ & _).
+    destruct qci_alpha_spec as [A1 _].
+    assert (R1' : inject_Z l - (1 # 2) <= l1).
+    { assert (inject_Z l <= inject_Z l0) by (rewrite <- Zle_Qle; exact L1). lra. }
+    unfold band. pose proof (Hmon _ _ R1'). pose proof (Hmon _ _ R3). lra.
 Qed.
 End NormalBand.
